@@ -38,7 +38,7 @@ theorem C10_history_independent (ps : List Proc) (shelves : List WareId) (sched 
 
 /-- T-fact tie: which placer each placement mode uses (`none` places nothing). -/
 theorem C10_tie : Generated.cachePlaceSwitch = [(["rio.Placement_None"], "return nil"), (["rio.Placement_Direct"], "CopyPlacer"),
-      (["rio.Placement_Copy"], "CopyPlacer"), (["rio.Placement_Mount"], "GetMountPlacer"), (["default"], "panic")] := by
+      (["rio.Placement_Copy"], "CopyPlacer"), (["rio.Placement_Mount"], "GetMountPlacer"), (["default"], "return nil")] := by   -- default: a usage error since `fix:` 030c09c
   decide
 
 end Rio
